@@ -26,12 +26,15 @@ BUDGET = {"quick": (16, 30), "thorough": (16, 1200)}
 
 @st.composite
 def _strategy(draw):
-    kind = draw(st.sampled_from(["geom", "geom", "cone", "dist", "cycle", "persist"]))
+    kind = draw(st.sampled_from(["geom", "geom", "cone", "dist", "dist2", "cycle", "persist"]))
     if kind == "cycle":
         spec = draw(gc.system(max_moltypes=1, max_res=12, min_res=4, shapes=("ring",), max_total_mol=2,
                               allow_vs=False))
     elif kind in ("dist", "persist", "cone"):
         spec = draw(gc.system(max_moltypes=2, max_res=10, min_res=4, shapes=("linear",), max_total_mol=3,
+                              allow_vs=False))
+    elif kind == "dist2":
+        spec = draw(gc.system(max_moltypes=1, max_res=10, min_res=7, shapes=("linear",), max_total_mol=2,
                               allow_vs=False))
     else:
         spec = draw(gc.system(max_res=8, max_total_mol=4))
@@ -97,6 +100,21 @@ def _strategy(draw):
         build += ["[ distance_restraints ]", f"{a} {b} {dist!r}" + ("" if tol is None else f" {tol!r}")]
         restraints.append({"kind": "dist", "mol": name, "lo": lo, "hi": hi, "a": a, "b": b, "dist": dist,
                            "tol": tol or 0.0})
+    elif kind == "dist2":
+        # two distance restraints whose growth paths overlap, in either declaration order
+        build += ["[ molecule ]", f"{name} {lo} {hi}"]
+        a = 0
+        b = draw(st.integers(3, nres - 3))
+        c = draw(st.sampled_from([0, 1, 2]))
+        d = nres - 1
+        first = {"a": a, "b": b, "dist": round(0.15 * (b - a) + 0.15, 2), "tol": draw(st.sampled_from([0.1, 0.2]))}
+        second = {"a": c, "b": d, "dist": round(0.12 * (d - c) + 0.2, 2), "tol": draw(st.sampled_from([0.3, 0.4]))}
+        pair = [first, second] if draw(st.booleans()) else [second, first]
+        build.append("[ distance_restraints ]")
+        for r in pair:
+            build.append(f"{r['a']} {r['b']} {r['dist']!r} {r['tol']!r}")
+            restraints.append({"kind": "dist", "mol": name, "lo": lo, "hi": hi, "a": r["a"], "b": r["b"],
+                               "dist": r["dist"], "tol": r["tol"]})
     elif kind == "persist":
         build += ["[ molecule ]", f"{name} {lo} {hi}"]
         lp = draw(st.sampled_from([0.5, 1.0, 2.0]))
